@@ -1,4 +1,4 @@
-import HbsModel.Lemmas.PlainText
+import HbsModel.Lemmas.QuotedText
 import HbsModel.Compile
 /-
   compile2 on a source without tags: one RawString holding the source.
@@ -70,5 +70,141 @@ theorem compile_empty (opts : TemplateOptions) : compile2 [] opts = .ok (.mk opt
   have hf : compileFinish [] opts { tmplStack := [Tmpl.mk none [] []], endPos := some 0 } = .ok (.mk opts.name [] []) := by
     simp [compileFinish, Tmpl.setName, Tmpl.elements, Tmpl.mapping]
   simp [compileLoop, step_template, step_eoi0, Tmpl.empty, hf]
+
+/-! ### quoted text: the escapes are removed again by `raw_string` -/
+
+theorem removeAt_prefix (pre : Str) (c : Char) (rest : Str) : removeAt (pre ++ c :: rest) pre.length = some (pre ++ rest) := by
+  induction pre with
+  | nil => rfl
+  | cons d pre ih => simp [removeAt, ih]
+
+/-- start offsets of the escape pairs -/
+def escPos (s : Str) (p : Nat) : List Nat := (escToks s p).map (·.s)
+
+theorem escPos_open (t : Str) (p : Nat) : escPos ('{' :: '{' :: t) p = p :: escPos t (p + 3) := by
+  simp [escPos, escToks]
+
+theorem escPos_cons_ne (c : Char) (t : Str) (p : Nat) (h : ∀ t', c :: t ≠ '{' :: '{' :: t') :
+    escPos (c :: t) p = escPos t (p + 1) := by
+  simp [escPos, escToks_cons_ne c t p h]
+
+/-- `raw_string`'s removal loop, run over the whole quoted text with the escape offsets, gives the
+    original text back -/
+theorem removeEscapes_quote (site : String) (s : Str) (pre : Str) :
+    removeEscapes site (pre ++ quote s) 0 0 (escPos s pre.length) = .ok (pre ++ s) := by
+  fun_induction quote s generalizing pre with
+  | case1 t ih =>
+    rw [escPos_open]
+    simp only [removeEscapes]
+    have h := ih (pre ++ ['\\', '{', '{'])
+    simp only [List.append_assoc, List.cons_append, List.nil_append, List.length_append, List.length_cons, List.length_nil] at h
+    have e : pre.length + (0 + 1 + 1 + 1) = pre.length + 3 := by omega
+    rw [e] at h
+    rw [h]
+    simp only [Nat.zero_add, Nat.not_lt_zero, ↓reduceIte, Nat.sub_zero]
+    have := removeAt_prefix pre '\\' ('{' :: '{' :: t)
+    rw [this]
+  | case2 c t hne ih =>
+    have hne' : ∀ t', c :: t ≠ '{' :: '{' :: t' := fun t' e => by cases e; exact hne t' rfl rfl
+    rw [escPos_cons_ne c t _ hne']
+    have h := ih (pre ++ [c])
+    simp only [List.append_assoc, List.cons_append, List.nil_append, List.length_append, List.length_cons, List.length_nil] at h
+    exact h
+  | case3 => simp [escPos, escToks, removeEscapes]
+
+theorem escToks_spec (s : Str) (p : Nat) :
+    ∀ tok ∈ escToks s p, tok.rule = some .r_escape ∧ tok.e ≤ p + (quote s).length := by
+  fun_induction quote s generalizing p with
+  | case1 t ih =>
+    intro tok htok
+    simp only [escToks, List.mem_cons] at htok
+    rcases htok with rfl | h
+    · exact ⟨rfl, by simp [List.length_cons]⟩
+    · have := ih (p + 3) tok h
+      exact ⟨this.1, by simp only [List.length_cons]; omega⟩
+  | case2 c t hne ih =>
+    have hne' : ∀ t', c :: t ≠ '{' :: '{' :: t' := fun t' e => by cases e; exact hne t' rfl rfl
+    intro tok htok
+    rw [escToks_cons_ne c t p hne'] at htok
+    have := ih (p + 1) tok htok
+    exact ⟨this.1, by simp only [List.length_cons]; omega⟩
+  | case3 => intro tok htok; simp [escToks] at htok
+
+/-- escape pairs are folded into their raw_text pair: they produce no entry of their own -/
+theorem attachEscapes_escs (l rest : List (Tok Rule)) (h : ∀ tok ∈ l, tok.rule = some Rule.r_escape) :
+    attachEscapes (l ++ rest) = attachEscapes rest := by
+  induction l with
+  | nil => rfl
+  | cons tok l ih =>
+    have ht : tok.rule = some Rule.r_escape := h tok (by simp)
+    simp only [List.cons_append, attachEscapes, ht]
+    simp only [show ((some Rule.r_escape : Option Rule) == some Rule.r_escape) = true from by decide, ↓reduceIte]
+    exact ih (fun tok' h' => h tok' (by simp [h']))
+
+theorem takeWhile_all {α : Type} (l : List α) (p : α → Bool) (h : ∀ a ∈ l, p a = true) : l.takeWhile p = l := by
+  induction l with
+  | nil => rfl
+  | cons a l ih => simp [List.takeWhile, h a (by simp), ih (fun b hb => h b (by simp [hb]))]
+
+theorem step_raw_text_esc (src : Str) (opts : TemplateOptions) (fuel : Nat) (it : List CTok) (L : List Nat) (s : Str)
+    (h : removeEscapes "tpl.raw_string.remove" src 0 0 L = .ok s) :
+    compileStep src opts fuel { tmplStack := [Tmpl.empty] } ⟨some .r_raw_text, 0, src.length, L⟩ it
+      = .ok ({ tmplStack := [.mk none [.raw s] [(1, 1)]], endPos := some src.length }, it) := by
+  simp [compileStep, lineCol, lineColAux, slice_all, rawString, h, frontMut, Tmpl.pushElement,
+    Tmpl.empty, Tmpl.name, Tmpl.elements, Tmpl.mapping]
+
+/-- **compile_quoted**: for EVERY non-empty text `s` without a backslash immediately before a `{{`,
+    the source `quote s` – every `{{` written as `\{{` – compiles to the single element RawString(s):
+    the escape writes a literal `{{` and what follows it stays text. -/
+theorem compile_quoted (s : Str) (opts : TemplateOptions) (hne : s ≠ []) (hs : noEscBrace s) :
+    compile2 (quote s) opts = .ok (.mk opts.name [.raw s] [(1, 1)]) := by
+  unfold compile2 compile2Inner
+  rw [parse_quoted s hne hs]
+  have hspec := escToks_spec s 0
+  simp only [Nat.zero_add] at hspec
+  -- the pair stream after folding the escapes into their raw_text pair
+  have hattach : attachEscapes (⟨some .r_template, 0, (quote s).length⟩ :: ⟨some .r_raw_text, 0, (quote s).length⟩ ::
+        (escToks s 0 ++ [⟨none, (quote s).length, (quote s).length⟩]))
+      = [⟨some .r_template, 0, (quote s).length, []⟩, ⟨some .r_raw_text, 0, (quote s).length, escPos s 0⟩,
+         ⟨none, (quote s).length, (quote s).length, []⟩] := by
+    have htw : (escToks s 0 ++ [(⟨none, (quote s).length, (quote s).length⟩ : Tok Rule)]).takeWhile
+        (fun u => decide (u.e ≤ (quote s).length)) = escToks s 0 ++ [⟨none, (quote s).length, (quote s).length⟩] := by
+      apply takeWhile_all
+      intro a ha
+      simp only [List.mem_append, List.mem_singleton] at ha
+      rcases ha with ha | rfl
+      · simpa using (hspec a ha).2
+      · simp
+    have hfil : (escToks s 0 ++ [(⟨none, (quote s).length, (quote s).length⟩ : Tok Rule)]).filter
+        (fun u => u.rule == some Rule.r_escape) = escToks s 0 := by
+      rw [List.filter_append]
+      have h1 : (escToks s 0).filter (fun u => u.rule == some Rule.r_escape) = escToks s 0 := by
+        rw [List.filter_eq_self]
+        intro a ha
+        rw [(hspec a ha).1]; decide
+      rw [h1]
+      simp only [List.filter, List.append_nil]
+      have : ((none : Option Rule) == some Rule.r_escape) = false := by decide
+      simp [this]
+    simp only [attachEscapes]
+    simp only [show ((some Rule.r_template : Option Rule) == some .r_escape) = false from by decide,
+      show ((some Rule.r_raw_text : Option Rule) == some .r_escape) = false from by decide,
+      show ((some Rule.r_template : Option Rule) == some .r_raw_text) = false from by decide,
+      show ((some Rule.r_template : Option Rule) == some .r_raw_block_text) = false from by decide,
+      show ((some Rule.r_raw_text : Option Rule) == some .r_raw_text) = true from by decide,
+      Bool.false_eq_true, ↓reduceIte, Bool.or_self, Bool.true_or]
+    rw [htw, hfil, attachEscapes_escs _ _ (fun tok h => (hspec tok h).1)]
+    simp only [attachEscapes]
+    simp only [show ((none : Option Rule) == some .r_escape) = false from by decide,
+      show ((none : Option Rule) == some .r_raw_text) = false from by decide,
+      show ((none : Option Rule) == some .r_raw_block_text) = false from by decide,
+      Bool.false_eq_true, ↓reduceIte, Bool.or_self]
+    rfl
+  simp only []
+  rw [hattach]
+  have hrem := removeEscapes_quote "tpl.raw_string.remove" s []
+  simp only [List.nil_append, List.length_nil] at hrem
+  simp [compileLoop, step_template, step_raw_text_esc _ _ _ _ _ _ hrem, step_eoi, finish_plain, Tmpl.setName,
+    Tmpl.elements, Tmpl.mapping]
 
 end Hbs.PlainText
